@@ -1367,6 +1367,8 @@ func (e *Entry) Find(name string) *Entry {
 					}
 				}
 				e = e.RPC.Output
+			default:
+				return nil
 			}
 		default:
 			_, part = getPrefix(part)
